@@ -1,6 +1,6 @@
 (* C15, stage 5b: fields  (id, requiredness, type, name, default value, annotations, separator)  and runs of fields. *)
 From PVIdl Require Import Comb Ast Parser Print Proofs.Total Proofs.RoundTok Proofs.RoundPath Proofs.RoundAnn Proofs.RoundTy
-  Proofs.RoundKit Proofs.RoundNum Proofs.RoundConst Proofs.RoundDecl.
+  Proofs.RoundKit Proofs.Lex Proofs.RoundNum Proofs.RoundConst Proofs.RoundDecl.
 From Coq Require Import ZifyN ZifyNat ZifyBool.
 From Coq Require String.
 Import String.StringSyntax.
@@ -97,7 +97,8 @@ Proof.
   - bsplit Hw. destruct (oblank lf whole Hlf b2 Z ltac:(assumption) Hn ltac:(sfx_of S)) as [o E]. exists o. split; [|exact E].
     apply opt_ok. unfold p_default. tg sym_field_eq (txt "=").
     obk lf whole Hlf S ltac:(now apply const_nb).
-    apply (rt_const lf whole Hlf); auto; [|sfx_of S]. apply (cv_depth_sfx whole df v (pr_blank b2 Z)); auto. sfx_of S.
+    apply (rt_const lf whole Hlf); auto; [|apply (cvfollow_cfollow lf whole Hlf); [exact Hf|sfx_of S]|sfx_of S].
+    apply (cv_depth_sfx whole df v (pr_blank b2 Z)); auto. sfx_of S.
   - exists None. split.
     + apply opt_err. unfold p_default. apply pbind_err. destruct Z as [|c Z]; [exact I|]. apply tag_hd_ne.
       cbn in Hq. now apply negb_true_iff in Hq.
